@@ -52,7 +52,8 @@ def gen_cases(tier, seed):
     for i in range(n):
         yield {"kind": "point", "seed": r.randrange(1 << 30), "branches": ["guess", "ads", "des", "user", "two"][i % 5], "textcol": i % 7 == 0}
     for i in range(96 if tier == "quick" else 4000):
-        yield {"kind": "model", "seed": r.randrange(1 << 30), "model": GM.MODEL_NAMES[i % len(GM.MODEL_NAMES)], "fitted": i % 4 == 3}
+        yield {"kind": "model", "seed": r.randrange(1 << 30), "model": GM.MODEL_NAMES[i % len(GM.MODEL_NAMES)], "fitted": (i // len(GM.MODEL_NAMES)) % 2 == 1,
+               "tunit": [None, "°C", None, "K"][(i // len(GM.MODEL_NAMES)) % 4]}
     for i in range(40 if tier == "quick" else 2000):
         yield {"kind": "base", "seed": r.randrange(1 << 30)}
 
@@ -255,6 +256,8 @@ def _run_model(case, ctx):
     units = gen.random_units(r, fraction_ok=r.random() < 0.5)
     if name in ("DR", "DA"):
         units["pressure_mode"], units["pressure_unit"] = "relative", None
+    if case.get("tunit"):
+        units["temperature_unit"] = case["tunit"]
     meta = gen.json_metadata(r)
     mp = gen.material_props(r) if r.random() < 0.4 else None
     Tst = T if units["temperature_unit"] == "K" else round(T - 273.15, 6)
@@ -266,9 +269,8 @@ def _run_model(case, ctx):
         ls = [float(numpy.asarray(m0.loading(p)).ravel()[0]) for p in ps]
         if not all(math.isfinite(x) and x > 0 for x in ls) or len(set(ls)) < 5:
             return
-        kw = dict(units, temperature_unit="K")
         try:
-            iso = pygaps.ModelIsotherm(pressure=ps, loading=ls, model=name, material=copy.deepcopy(mat), adsorbate=ads_name, temperature=T, **kw, **copy.deepcopy(meta))
+            iso = pygaps.ModelIsotherm(pressure=ps, loading=ls, model=name, material=copy.deepcopy(mat), adsorbate=ads_name, temperature=Tst, **units, **copy.deepcopy(meta))
         except Exception:
             ctx.count("skipped", "fit-failed")
             return
